@@ -398,8 +398,10 @@ fn encode_subframe(
             Verbatim::count_bits_from_metadata(samples.len(), bits_per_sample as usize);
 
         let too_short = samples.len() < MIN_BLOCK_SIZE_FOR_PREDICTION;
+        // `fixed_lpc` may select by an estimate; keep it only if it really is smaller.
         let fixed = if !too_short && config.use_fixed {
             fixed_lpc(config, samples, bits_per_sample, baseline_bits)
+                .filter(|x| x.count_bits() < baseline_bits)
         } else {
             None
         };
